@@ -351,7 +351,9 @@ class ReservablePriorityReqFilterStore(FilterStore):
 
                   #reserving the item to preserved item order by adding the reserve_get event to a list(the index position of event= index position of reserved item)
                   self.reserved_events.append(event)
-                  break
+                  # tell _trigger_reserve_get to go on with the next waiting request: other
+                  # unreserved items may be able to serve it
+                  return True
 
 
 
